@@ -748,7 +748,6 @@ func successReturnsIdx(res *Result) []*ssa.Return {
 	return out
 }
 
-
 // specCallee specialises the callee of c on the arguments that are constants under res.
 func specCallee(res *Result, c *ssa.Call) *Result {
 	cal := c.Common().StaticCallee()
